@@ -59,14 +59,19 @@ type Program struct {
 }
 
 type Type struct {
-	Name       string   `json:"name"`
-	Ifaces     []int    `json:"ifaces,omitempty"`
-	Init       bool     `json:"init,omitempty"`
-	APS        bool     `json:"aps,omitempty"`
-	Qual       bool     `json:"qual,omitempty"`
-	Primary    bool     `json:"primary,omitempty"`
-	Lazy       bool     `json:"lazy,omitempty"`
-	Role       string   `json:"role,omitempty"`       // "", "runner", "closer"
+	Name    string `json:"name"`
+	Ifaces  []int  `json:"ifaces,omitempty"`
+	Init    bool   `json:"init,omitempty"`
+	APS     bool   `json:"aps,omitempty"`
+	Qual    bool   `json:"qual,omitempty"`
+	Primary bool   `json:"primary,omitempty"`
+	Lazy    bool   `json:"lazy,omitempty"`
+	Role    string `json:"role,omitempty"` // "", "runner", "closer"
+	// AlsoCloser (with Role "runner"): the runner is a closer component as well.
+	AlsoCloser bool `json:"alsoCloser,omitempty"`
+	// OrderMixin (with an order class): Order() is not declared by the type but promoted from an
+	// embedded mix-in struct, and the Priority marker from the embedded definition.PriorityComponent.
+	OrderMixin bool     `json:"orderMixin,omitempty"`
 	OrderClass string   `json:"orderClass,omitempty"` // "", "ordered", "priority"
 	Funcs      []string `json:"funcs,omitempty"`      // result-less methods
 	HasKind    bool     `json:"hasKind,omitempty"`    // Kind() string
